@@ -38,6 +38,14 @@ access(all) contract Run {
             return self.down(n - 1) + 1
         }
     }
+    access(all) struct Node {
+        access(all) let n: Int
+        access(all) var parent: &Node?
+        access(all) var kids: [&Node]
+        init(_ n: Int) { self.n = n; self.parent = nil; self.kids = [] }
+        access(all) fun setParent(_ p: &Node) { self.parent = p }
+        access(all) fun addKid(_ k: &Node) { self.kids.append(k) }
+    }
     access(all) attachment Att for Impl {
         access(all) fun climb(_ n: Int): Int { if n == 0 { return 0 }; return base[Att]!.climb(n - 1) + 1 }
     }
@@ -73,6 +81,28 @@ access(all) fun main(): Int { return spin(0) }`},
     return i
 }`},
 		{"bigint-growth", "loop", s(`var x: Int = 3; while true { x = x * x }; return 0`)},
+		// finite programs whose RESULT is cyclic (through references, with and without an optional in the cycle): exporting it must end
+		{"export-cycle-optional", "finite", `import Run from 0x1
+access(all) fun main(): &Run.Node {
+    let root = Run.Node(0)
+    let kid = Run.Node(1)
+    let rr = &root as &Run.Node
+    let kr = &kid as &Run.Node
+    kr.setParent(rr)
+    rr.addKid(kr)
+    return rr
+}`},
+		{"export-cycle-array", "finite", `import Run from 0x1
+access(all) fun main(): [&Run.Node] {
+    let a = Run.Node(0)
+    let b = Run.Node(1)
+    let ar = &a as &Run.Node
+    let br = &b as &Run.Node
+    ar.addKid(br)
+    br.addKid(ar)
+    br.setParent(br)
+    return [ar, br, ar]
+}`},
 		{"function-recursion", "rec", s(`return Run.rec(%d)`)},
 		{"mutual-recursion", "rec", s(`return Run.even(%d) ? 1 : 0`)},
 		{"struct-init-recursion", "rec", s(`let r = Run.Rec(%d); return r.n`)},
@@ -200,6 +230,10 @@ func runC30(tr c30Trial) (vs []Violation, info string) {
 		if after := t.GaugeN - t.FiredGauge; after > 64 {
 			viol("limit-prompt", "limit-prompt", "the execution went on for %d further metering calls after the limit was reached", after)
 		}
+	case prog.Kind == "finite":
+		if t.Class != "ok" {
+			viol("finite-program", "finite-fails", "a program of a dozen statements ended with %s %s: %s", t.Class, t.ErrType, t.ErrMsg)
+		}
 	case prog.Kind == "loop":
 		if t.Class == "ok" {
 			viol("terminates", "unbounded-ok", "an unbounded loop completed normally (%s)", t.Result)
@@ -242,6 +276,11 @@ func c30Trials(tier string, rng *Rng) []c30Trial {
 	}
 	for _, p := range c30Programs() {
 		for _, e := range engines {
+			if p.Kind == "finite" {
+				// generous limits (the defaults of runC30) and a few small ones: a limit may cut the program short, nothing else may
+				out = append(out, c30Trial{Program: p.Name, Engine: e})
+				continue
+			}
 			if p.Kind == "loop" {
 				for _, site := range []string{"comp", "mem"} {
 					for _, b := range budgets {
@@ -368,6 +407,9 @@ func init() {
 func devC30() {
 	heapGuard(func(gb float64) { fmt.Printf("HEAP EXPLOSION %.1f GB\n", gb); os.Exit(3) })
 	for _, tr := range c30Trials("quick", NewRng(1)) {
+		if len(os.Args) > 2 && !strings.Contains(tr.Program, os.Args[2]) {
+			continue
+		}
 		start := time.Now()
 		vs, info := runC30(tr)
 		fmt.Printf("%-28s %-6s %-4s b=%-7d d=%-14d L=%-4d %-60s %6.2fs viol=%d\n", tr.Program, tr.Engine, tr.Site, tr.Budget, tr.Depth, tr.Limit, clip(info, 60), time.Since(start).Seconds(), len(vs))
